@@ -38,7 +38,15 @@ TYPE_OF = {"make_fail": "rule", "make_response": "rule", "make_pass": "pass", "m
 KEYNAME = {"make_fail": "error_key", "make_response": "error_key", "make_pass": "pass_key", "make_info": "info_key",
            "make_fingerprint": "fingerprint_key", "make_metadata": None, "make_none": "none_key", "make_metadata_key": "key"}
 KEYS = {"none": None, "empty": "", "valid": "SOME_KEY", "int": 7, "list": ["K"], "zero": 0}
-PAYLOADS = [0, 10, 100]
+PAYLOADS = [0, 10, 100, "non-ascii", "quotes", "tuple-keyed-dict", "nested", "control"]
+
+
+def payload_value(p):
+    """the `data` detail of a response: ASCII text of a given length, or a value whose text form and JSON form differ"""
+    if isinstance(p, int):
+        return "x" * p
+    return {"non-ascii": u"\u00e9\u4e2d" * 4, "quotes": 'say "hi" \\ there', "tuple-keyed-dict": {(1, 2): "v"}, "nested": {"k": [None, True, 2.5, ("a", "b")]},
+            "control": "tab\there\nnewline"}[p]
 
 
 def make(cls_name, key, kwargs):
@@ -58,7 +66,7 @@ def response_oracle(cls_name, key_kind, extra_names, payload_len, limit_below):
     key = KEYS[key_kind]
     kwargs = {}
     if payload_len:
-        kwargs["data"] = "x" * payload_len
+        kwargs["data"] = payload_value(payload_len)
     for n in extra_names:
         kwargs[n] = 1
     if cls_name in ("make_none",):
@@ -89,7 +97,7 @@ def make_o2():
         settings.defaults["max_detail_length"] = limit
         kwargs = {}
         if payload:
-            kwargs["data"] = "x" * payload
+            kwargs["data"] = payload_value(payload)
         for n in names:
             kwargs[n] = 1
         case = lambda mv: {"cls": cls_name, "key_kind": key_kind, "names": names, "payload": payload, "limit": mv.int(limit)}  # noqa
@@ -319,21 +327,30 @@ def judge_report(specs, rules, response, missing, show, evname):
     return bad
 
 
-def run_report(specs, missing, show, evname):
+def run_report(specs, missing, show, evname, driver="serial"):
     rules = build_rules(specs)
     broker = dr.Broker()
+    import io
     if evname == "single":
         ev = evaluators.SingleEvaluator(broker)
+    elif evname == "yaml":
+        from insights.formats._yaml import YamlFormat
+        ev = YamlFormat(broker, missing=missing, show_rules=list(show), stream=io.StringIO())
     else:
-        import io
         ev = JsonFormat(broker, missing=missing, show_rules=list(show), stream=io.StringIO())
     graph = {}
     for r in rules:
         graph.update(dr.get_dependency_graph(r))
     with ev:
-        ev.run_serial(graph)
+        if driver == "serial":
+            ev.run_serial(graph)
+        else:
+            ev.run_incremental(graph)
     response = get_response_of_types(ev.get_response(), missing, list(show))
     return rules, response
+
+
+EVALUATORS = ["single", "json", "yaml"]
 
 
 def make_o3(nrules):
@@ -343,10 +360,11 @@ def make_o3(nrules):
             specs = [(RTYPES[en.choice("kind%d" % i, len(RTYPES))], en.choice("key%d" % i, 2)) for i in range(n)]
             missing = en.flag("missing")
             show = [t for t in SHOW if en.flag("show_" + t)]
-            evname = ["single", "json"][en.choice("ev", 2)]
-            case = lambda mv: {"specs": [list(s) for s in specs], "missing": missing, "show": show, "ev": evname}  # noqa
+            evname = EVALUATORS[en.choice("ev", len(EVALUATORS))]
+            driver = ["serial", "incremental"][en.choice("driver", 2)]
+            case = lambda mv: {"specs": [list(s) for s in specs], "missing": missing, "show": show, "ev": evname, "driver": driver}  # noqa
             en.note_sample(case)
-            rules, response = run_report(specs, missing, show, evname)
+            rules, response = run_report(specs, missing, show, evname, driver)
             bad = judge_report(specs, rules, response, missing, show, evname)
             en.must_hold(not bad, "reported-once", case, detail=bad)
     return o3
@@ -366,12 +384,12 @@ def obligations(tier):
         Obligation("O2-response", make_o2(), ["response-wellformed", "length-stub"],
                    desc="Response construction: key kinds, reserved names, payload sizes against a symbolic limit",
                    bounds={"classes": RESPONSES, "keys": sorted(KEYS), "kwargs names": "subsets of {type, own key name, other}",
-                           "payload chars": PAYLOADS, "max_detail_length": "unconstrained symbolic int"}, encoded=enc[1:6], budget_s=120,
+                           "payload (detail value)": "ASCII text of 0 / 10 / 100 chars, non-ASCII text, text with quotes and backslash, a dict keyed by a tuple, a nested list/dict with None/True/float/tuple, text with control characters", "max_detail_length": "unconstrained symbolic int"}, encoded=enc[1:6], budget_s=120,
                    replay="response", check_sample=True),
         Obligation("O3-reporting", make_o3(3 if thorough else 2), ["reported-once"],
-                   desc="SingleEvaluator and JsonFormat: every rule result listed once under its own heading with key/component/tags/links; type filter removes exactly the unselected headings",
+                   desc="SingleEvaluator, JsonFormat and YamlFormat, serial and incremental evaluation: every rule result listed once under its own heading with key/component/tags/links; type filter removes exactly the unselected headings",
                    bounds={"rules": 3 if thorough else 2, "result kinds": RTYPES, "keys": "2 values (equal keys allowed)",
-                           "missing": "both", "show_rules": "every subset of %s" % SHOW}, encoded=enc[7:],
+                           "missing": "both", "show_rules": "every subset of %s" % SHOW, "evaluators": EVALUATORS, "drivers": ["run_serial", "run_incremental"]}, encoded=enc[7:],
                    outside=["jinja rendering", "text/html/yaml/syslog formatters (share Evaluator; their output syntax is not parsed back)"],
                    budget_s=900 if thorough else 150, replay="report", check_sample=True),
     ]
@@ -390,7 +408,7 @@ def _native(case):
         settings.defaults["max_detail_length"] = case["limit"]
         kwargs = {}
         if case["payload"]:
-            kwargs["data"] = "x" * case["payload"]
+            kwargs["data"] = payload_value(case["payload"])
         for n in case["names"]:
             kwargs[n] = 1
         try:
@@ -416,7 +434,7 @@ def _native(case):
             return [] if dict(r) == stub else ["over-long response became %r expected %r" % (dict(r), stub)]
         return [] if dict(r) == full else ["response altered: %r expected %r" % (dict(r), full)]
     specs = [tuple(s) for s in case["specs"]]
-    rules, response = run_report(specs, case["missing"], case["show"], case["ev"])
+    rules, response = run_report(specs, case["missing"], case["show"], case["ev"], case.get("driver", "serial"))
     return judge_report(specs, rules, response, case["missing"], case["show"], case["ev"])
 
 
